@@ -959,20 +959,46 @@ func FreshSlaves(c *core.Ctx, rule string) {
 						return true
 					}
 					first := ast.Unparen(call.Args[0])
-					// append(copy.Slaves, ...): the copy's field must have been given a fresh list first
-					for _, b := range copies {
-						if pat.Expr("_new.Slaves").Match(info, first, b) != nil {
+					// append(copy.Slaves, ...) — directly or through a pointer to the copy: the
+					// copy's field must have been given a fresh list first
+					denotes := func(x ast.Expr, b pat.Binds, at cfgq.Point) bool {
+						x = ast.Unparen(x)
+						if pat.Same(info, x, b["_new"]) {
+							return true
+						}
+						r := ast.Unparen(fe.Resolve(flow.Site{G: g, At: at}, x))
+						if u, ok := r.(*ast.UnaryExpr); ok && u.Op == token.AND && pat.Same(info, ast.Unparen(u.X), b["_new"]) {
+							return true
+						}
+						if st, ok := r.(*ast.StarExpr); ok {
+							_ = st
+						}
+						return false
+					}
+					if sel, isSel := first.(*ast.SelectorExpr); isSel && sel.Sel.Name == "Slaves" {
+						handled := false
+						for _, b := range copies {
+							if !denotes(sel.X, b, p) {
+								continue
+							}
+							handled = true
 							analysed++
 							isFreshReset := func(n ast.Node) bool {
 								as, ok := n.(*ast.AssignStmt)
-								if !ok || len(as.Lhs) != 1 || len(as.Rhs) != 1 || pat.Expr("_new.Slaves").Match(info, as.Lhs[0], b) == nil {
+								if !ok || len(as.Lhs) != 1 || len(as.Rhs) != 1 {
 									return false
 								}
-								pt, _ := g.Find(as)
+								ls, ok := ast.Unparen(as.Lhs[0]).(*ast.SelectorExpr)
+								pt, okp := g.Find(as)
+								if !ok || !okp || ls.Sel.Name != "Slaves" || !denotes(ls.X, b, pt) {
+									return false
+								}
 								return origin(flow.Site{G: g, At: pt}, as.Rhs[0], nil) == "fresh"
 							}
 							okD, w := g.Dominated(p, isFreshReset)
 							c.Check(rule, fd.Name.Name+"/fresh-slaves", call.Pos(), okD, msg, w...)
+						}
+						if handled {
 							return true
 						}
 					}
